@@ -13,10 +13,17 @@
 (* itself can be covered or only its parent (too few peers under it): the  *)
 (* covered prefix is reprovided (all keys under it), scheduled at its own  *)
 (* slot of the next cycle, and every scheduled prefix it subsumes is       *)
-(* removed from the schedule.  The library forgets the due times of the    *)
-(* removed prefixes (InheritEarliestDue = FALSE, finding D19); with        *)
-(* InheritEarliestDue = TRUE the merged prefix takes over the earliest of  *)
-(* them, which restores the deadline.                                      *)
+(* removed from the schedule.  Two ways of replacing scheduled prefixes by *)
+(* a shorter one do not advertise the keys of the replaced prefixes:       *)
+(*  - WidenIndividual: a region of one or two keys is reprovided key by    *)
+(*    key, and the prefix covered by the one key's lookup was adopted also *)
+(*    when it was shorter (finding D19, repaired: FALSE is the code now);  *)
+(*  - MergeOnStart: a key is started whose prefix of the current average   *)
+(*    length is shorter than scheduled prefixes under it (finding D23,     *)
+(*    pinned by the repository's tests: TRUE is the code).                 *)
+(* The library forgets the due times of the removed prefixes               *)
+(* (InheritEarliestDue = FALSE); with InheritEarliestDue = TRUE the merged *)
+(* prefix takes over the earliest of them, which restores the deadline.    *)
 (***************************************************************************)
 EXTENDS Integers, Sequences, FiniteSets, TLC
 
@@ -24,7 +31,7 @@ CONSTANTS Depth,               \* length of the leaf prefixes (2 or 3)
           Cycle,               \* reprovide interval in ticks (a multiple of the number of leaves)
           MaxDelay,            \* allowed delay in ticks
           Horizon,             \* ticks explored
-          InheritEarliestDue
+          InheritEarliestDue, WidenIndividual, MergeOnStart
 
 Bits == {0, 1}
 Leaves == [1..Depth -> Bits]
@@ -38,12 +45,13 @@ Val(p) == IF p = <<>> THEN 0 ELSE 2 * Val(SubSeq(p, 1, Len(p) - 1)) + p[Len(p)]
 NLeaves == 2 ^ Depth
 Slot(p) == (Val(p) * (2 ^ (Depth - Len(p)))) * (Cycle \div NLeaves)
 
-VARIABLES now, due, last
-vars == <<now, due, last>>
+VARIABLES now, due, last, keys
+vars == <<now, due, last, keys>>
 \* due: function from scheduled prefixes to the tick at which they are due; last: per leaf, the tick of the
-\* last advertisement of its keys
+\* last advertisement of its keys; keys: the leaves that hold kept keys
 Init == /\ now = 0
-        /\ due = [p \in Leaves |-> Slot(p)]
+        /\ keys \in (SUBSET Leaves) \ {{}}
+        /\ due = [p \in keys |-> Slot(p)]
         /\ last = [p \in Leaves |-> 0]
 
 Scheduled == DOMAIN due
@@ -51,29 +59,48 @@ DueNow == {p \in Scheduled : due[p] = now}
 
 \* the next occurrence of the prefix's slot strictly after now
 NextSlot(p) == LET base == (now \div Cycle) * Cycle + Slot(p) IN IF base > now THEN base ELSE base + Cycle
+Earliest(S) == CHOOSE d \in S : \A e \in S : d <= e
 
 Reprovide(p, c, path) ==
   \* p is due; c (p itself, or its parent when too few peers match p) is what the exploration covers
   /\ p \in DueNow /\ c \in {p} \cup (IF Len(p) = Depth THEN {Parent(p)} ELSE {})
   /\ path \in {"batch", "individual"}
+  /\ (path = "individual" /\ ~WidenIndividual) => c = p
   /\ LET subsumed == {q \in Scheduled : IsPrefix(c, q)}
-         earliest == CHOOSE d \in {due[q] : q \in subsumed \ {p}} \cup {NextSlot(c)} :
-                       \A e \in {due[q] : q \in subsumed \ {p}} \cup {NextSlot(c)} : d <= e
-         when == IF InheritEarliestDue /\ earliest > now THEN earliest ELSE NextSlot(c)
+         dues == {due[q] : q \in subsumed \ {p}} \cup {NextSlot(c)}
+         when == IF InheritEarliestDue THEN Earliest(dues) ELSE NextSlot(c)
          advertised == IF path = "batch" THEN c ELSE p
      IN /\ last' = [l \in Leaves |-> IF IsPrefix(advertised, l) THEN now ELSE last[l]]
         /\ due' = [q \in (Scheduled \ subsumed) \cup {c} |-> IF q = c THEN when ELSE due[q]]
+  /\ UNCHANGED <<now, keys>>
+
+\* A key is started in a leaf l that holds none yet; it is advertised now.  If a scheduled prefix covers l nothing
+\* else changes.  Otherwise a prefix of the current average length enters the schedule: the leaf itself, or
+\* (MergeOnStart) its parent c, which replaces the leaves scheduled under it - nothing is advertised for their keys.
+StartKey(l, c) ==
+  /\ l \in Leaves \ keys /\ c \in {l, Parent(l)}
+  /\ keys' = keys \cup {l}
+  /\ last' = [last EXCEPT ![l] = now]
+  /\ IF \E q \in Scheduled : IsPrefix(q, l)
+     THEN c = l /\ UNCHANGED due
+     ELSE /\ (c # l) => MergeOnStart
+          /\ LET subsumed == {q \in Scheduled : IsPrefix(c, q)}
+                 dues == {due[q] : q \in subsumed} \cup {NextSlot(c)}
+                 when == IF InheritEarliestDue THEN Earliest(dues) ELSE NextSlot(c)
+             IN due' = [q \in (Scheduled \ subsumed) \cup {c} |-> IF q = c THEN when ELSE due[q]]
   /\ UNCHANGED now
 
-Tick == /\ DueNow = {} /\ now < Horizon /\ now' = now + 1 /\ UNCHANGED <<due, last>>
+Tick == /\ DueNow = {} /\ now < Horizon /\ now' = now + 1 /\ UNCHANGED <<due, last, keys>>
 
-Next == Tick \/ \E p \in Scheduled : \E c \in Leaves \cup Parents : \E path \in {"batch", "individual"} : Reprovide(p, c, path)
+Next == \/ Tick
+        \/ \E l \in Leaves : \E c \in Leaves \cup Parents : StartKey(l, c)
+        \/ \E p \in Scheduled : \E c \in Leaves \cup Parents : \E path \in {"batch", "individual"} : Reprovide(p, c, path)
 Spec == Init /\ [][Next]_vars
 
-\* every leaf is covered by exactly one scheduled prefix
-Covered == \A l \in Leaves : Cardinality({p \in Scheduled : IsPrefix(p, l)}) = 1
+\* every leaf with keys is covered by exactly one scheduled prefix
+Covered == \A l \in keys : Cardinality({p \in Scheduled : IsPrefix(p, l)}) = 1
 \* the documented bound
-Deadline == \A l \in Leaves : now - last[l] <= Cycle + MaxDelay
+Deadline == \A l \in keys : now - last[l] <= Cycle + MaxDelay
 \* what still holds in the library: never later than one further cycle
-TwoCycles == \A l \in Leaves : now - last[l] <= 2 * Cycle + MaxDelay
+TwoCycles == \A l \in keys : now - last[l] <= 2 * Cycle + MaxDelay
 =============================================================================
